@@ -388,6 +388,14 @@ pub fn run(cfg: &Cfg) -> Stats {
             eval_stream(&s, &mut st, None, "stream");
             i += n;
         }
+        // every parameter / sub-parameter value around the saturation point
+        if shard == 0 {
+            for v in 65500u32..=65560 {
+                for form in [format!("\x1b[{v}m"), format!("\x1b[1;{v};2m"), format!("\x1b[4:{v}m"), format!("\x1bP{v};1q\x1b\\"), format!("\x1b[0{v}m"), format!("\x1b[{v}0m")] {
+                    eval_stream(form.as_bytes(), &mut st, None, "saturation");
+                }
+            }
+        }
         // very long strings (offsets that do not fit 8 / 12 / 16 bits), each followed by a short second string
         if cfg.tier != Tier::Tiny {
             let sizes: [usize; 14] = [255, 256, 257, 4095, 4096, 4097, 5000, 8192, 65534, 65535, 65536, 65537, 70000, 131075];
